@@ -919,6 +919,12 @@ def _factorize_single(by, expect, *, sort: bool, reindex: bool) -> tuple[pd.Inde
             idx -= 1
             within_bins = flat <= bins.max() if right else flat < bins.max()
             idx[~within_bins] = -1
+            # the intervals need not be contiguous: like pd.cut, drop values that fall in a gap
+            rights = expect.right.to_numpy()
+            if not np.array_equal(rights[:-1], bins[1:-1]):
+                inside = np.flatnonzero(idx >= 0)
+                vals_, r_ = flat[inside], rights[idx[inside]]
+                idx[inside[(vals_ > r_) if right else (vals_ >= r_)]] = -1
         else:
             idx = np.zeros_like(flat, dtype=np.intp) - 1
         found_groups = cast(pd.Index, expect)
